@@ -266,6 +266,8 @@ MANIFEST_ENTRY = {
     "note": "Partial: the autograd engine is trusted (compared, not verified); proof-level coverage is the traced families on small tensors; "
             "the remaining listed operations (all transform classes and inverses w.r.t. parameters and points, ImageTransformer, sample_image / "
             "grid_sample / warp_image w.r.t. image and coordinates, expv, compose_flows, compose_svfs, cubic B-spline evaluation / derivative / "
-            "subdivision, spatial derivatives in six modes, flow functions, every similarity and regularisation loss) are covered by the "
+            "subdivision, spatial derivatives in six modes, flow functions, every similarity and regularisation loss; inverse(update_buffers in {False, True}) "
+            "of every invertible transform with the loss taken through inv(points), inv.tensor() and inv.disp(); every loss class exported by "
+            "deepali.losses w.r.t. every tensor argument incl. all target point sets of the point-set distances) are covered by the "
             "always-run autograd-vs-central-difference exploration at generic inputs only; kinks and clamping boundaries are excluded.",
 }
